@@ -1,5 +1,14 @@
 import PortusModel.Props.C20
 import PortusModel.Props.C20Layout
+import PortusModel.Lemmas.Accept2
+#print axioms Portus.Lang.Typing.well_typed_accepted
+#print axioms Portus.Lang.Typing.well_typed_accepted_upd
+#print axioms Portus.Lang.Typing.well_typed_image
+#print axioms Portus.Lang.Typing.wtSrc_accepted
+#print axioms Portus.Lang.Typing.richSrc_accepted
+#print axioms Portus.Lang.Typing.wellTyped_eq
+#print axioms Portus.Lang.Typing.finding_bare_bool_condition
+#print axioms Portus.Lang.Typing.finding_guarded_target
 #print axioms Portus.C20.layout_same_image
 #print axioms Portus.C20.comments_same_program
 #print axioms Portus.C20.rendering_parses
